@@ -27,4 +27,7 @@ def run(tier, seed):
     for o in rx.obs:
         o.name = "C18/rx/" + o.name[4:]
     res.add(rx)
+    # a directive other than #line / #pragma is rejected: the two recognisers never take a longer word for their keyword
+    from props import directives
+    res.add(directives.obligations("C18"))
     return res
